@@ -115,7 +115,17 @@ class Frame:
         return getattr(self.func, "name", "<module>")
 
 
+_CY_CACHE: dict = {}
+
+
 def contains_yield(fnode) -> bool:
+    r = _CY_CACHE.get(id(fnode))
+    if r is None:
+        r = _CY_CACHE[id(fnode)] = (_contains_yield(fnode), fnode)
+    return r[0]
+
+
+def _contains_yield(fnode) -> bool:
     """Is this def a generator (yield in its own body, not in nested defs)?"""
     stack = list(fnode.body) if not isinstance(fnode, ast.Lambda) else [fnode.body]
     while stack:
